@@ -40,13 +40,34 @@ impl Hooks for EntropyHook {
     }
 }
 
-/// Run `f` with a deterministic entropy provider installed on this thread.
+thread_local! {
+    static CURRENT_HOOKS: std::cell::RefCell<Option<Arc<dyn Hooks>>> = const { std::cell::RefCell::new(None) };
+}
+
+/// Install hooks on this thread and return the previously installed ones (the library's
+/// thread-local is write-only, so the simulator tracks what it installed).
+pub fn set_hooks(h: Option<Arc<dyn Hooks>>) -> Option<Arc<dyn Hooks>> {
+    let prev = CURRENT_HOOKS.with(|c| c.replace(h.clone()));
+    verif_hooks::install(h);
+    prev
+}
+
+struct RestoreHooks(Option<Option<Arc<dyn Hooks>>>);
+impl Drop for RestoreHooks {
+    fn drop(&mut self) {
+        if let Some(prev) = self.0.take() {
+            set_hooks(prev);
+        }
+    }
+}
+
+/// Run `f` with a deterministic entropy provider installed on this thread; whatever was
+/// installed before (e.g. a simulated thread's scheduler hooks) is restored afterwards,
+/// also when `f` unwinds.
 pub fn with_entropy<R>(seed: u64, f: impl FnOnce(&Arc<EntropyHook>) -> R) -> R {
     let h = EntropyHook::new(seed);
-    verif_hooks::install(Some(h.clone()));
-    let r = f(&h);
-    verif_hooks::install(None);
-    r
+    let _restore = RestoreHooks(Some(set_hooks(Some(h.clone()))));
+    f(&h)
 }
 
 // ---------------------------------------------------------------------------------------
